@@ -1202,15 +1202,18 @@ class Epoch(object):
         if m < 3:
             x -= 1
             m += 12
-        alpha = iint(x / 100.0)
-        beta = 2 - alpha + iint(alpha / 4.0)
+        # The Gregorian correction does not apply to Julian calendar dates
+        beta = 0
+        if not Epoch.is_julian(year, month, day):
+            alpha = iint(x / 100.0)
+            beta = 2 - alpha + iint(alpha / 4.0)
         b = iint(365.25 * x) + iint(30.6001 * (m + 1.0)) + d + 1722519 + beta
         c = iint((b - 122.1) / 365.25)
         d = iint(365.25 * c)
         e = iint((b - d) / 30.6001)
         d = b - d - iint(30.6001 * e)
         m = (e - 1) if e < 14 else (e - 13)
-        x = (c - 4716) if month > 2 else (c - 4715)
+        x = (c - 4716) if m > 2 else (c - 4715)
         w = 1 if x % 4 == 0 else 2
         n = iint((275.0 * m) / 9.0) - w * iint((m + 9.0) / 12.0) + d - 30
         a = x - 623
@@ -1228,20 +1231,18 @@ class Epoch(object):
         o = iint((11.0 * j + 14.0) / 30.0)
         h = 30 * q + j + 1
         jj = k - o + n - 1
-        # jj is the number of the day in the moslem year h. If jj > 354 we need
-        # to know if h is a leap year
-        if jj > 354:
-            cl = h % 30
-            dl = (11 * cl + 3) % 30
-            if dl < 19:
-                jj -= 354
-                h += 1
-            else:
-                jj -= 355
-                h += 1
-            if jj == 0:
-                jj = 355
-                h -= 1
+        # jj is the number of the day counted from the start of the moslem
+        # year h. It may fall before that year, or up to two years after it
+
+        def days_in_year(hh):
+            return 354 if (11 * (hh % 30) + 3) % 30 < 19 else 355
+
+        while jj > days_in_year(h):
+            jj -= days_in_year(h)
+            h += 1
+        while jj < 1:
+            h -= 1
+            jj += days_in_year(h)
         # Now, let's convert DOY jj to month and day
         if jj == 355:
             m = 12
